@@ -13,7 +13,7 @@ def unit_cases(tier, rng):
     for c in _c10.cases('quick', rng):
         yield c
 
-def app_case(rng, scripts, nctx, nents, with_blocker, L):
+def app_case(rng, scripts, nctx, nents, with_blocker, L, with_ops=False):
     ids = Ids()
     menu = sorted(rng.sample(range(8), nctx))
     ents = list(range(nents))
@@ -55,7 +55,16 @@ def app_case(rng, scripts, nctx, nents, with_blocker, L):
     steps = []
     for e in ents:
         steps.append(sop(spawn(e, [c for c in menu if rng.random() < .8] or [menu[0]])))
+    # now and then a holder leaves (component removed or entity despawned) or joins between two frames: the others go on
+    # from the state they had after the previous frame
+    opsat = {}
+    if with_ops:
+        for _ in range(rng.randint(1, 3)):
+            e = rng.choice(ents); c = rng.choice(menu)
+            opsat.setdefault(rng.randrange(1, L), []).append(rng.choice([remove(e, c), remove(e, c), despawn(e), insert(e, c)]))
     for i in range(L):
+        for o in opsat.get(i, []):
+            steps.append(sop(o))
         steps.append(frame(raw(), rand_dt(rng)))
     return scenario(menu, ents, cfg, steps)
 
@@ -76,7 +85,7 @@ def app_cases(tier, rng):
                 if rng.random() < 0.4: st = rng.choice(STATES)
                 s.append(st)
             scripts.append(s)
-        yield (app_case(rng, scripts, rng.randint(1, 3), rng.randint(1, 3), rng.random() < .4, L), 'random')
+        yield (app_case(rng, scripts, rng.randint(1, 3), rng.randint(1, 3), rng.random() < .4, L, rng.random() < .5), 'random')
 
 def nontrivial(case, out):
     return 'EStarted' in out or 'SFired' in out
@@ -89,11 +98,12 @@ STAGES = [dict(name='data', mode='unit', coq='Check.C01u', cases=unit_cases, non
                exhaustive={'thorough': True, 'quick': True},
                rule='real App: 1-3 context types (exclusive and shared), 1-3 entities, actions of all four output types, each driven by a scripted explicit condition, '
                     'a scripted modifier producing values of arbitrary dimension, optionally a scripted events-only blocker and a scripted plain blocker; every state script over {None,Ongoing,Fired} of length '
-                    '<= 3 (quick) / <= 5 (thorough) drives some action, plus sticky random scripts of 5..30 frames; non-trivial = an episode starts; distinct = distinct scenario text')]
+                    '<= 3 (quick) / <= 5 (thorough) drives some action, plus sticky random scripts of 5..30 frames, half of them with 1-3 component removals / despawns / insertions between frames; non-trivial = an episode starts; distinct = distinct scenario text')]
 
 CLAUSES = {1: 'events of a frame are not the transition table of (previous polled state, polled state), Started first, one per holder, payload = polled data (or delivered although events-blocked)',
            2: 'polled event flags differ from the table', 3: 'polled value does not have the declared output type', 4: 'an action event was delivered before the frame\'s evaluation',
-           5: 'data polled by the probe after the set / in Update differs from the end of the frame', 8: 'panic', 9: 'malformed trace', 10: 'panic'}
+           5: 'data polled by the probe after the set / in Update differs from the end of the frame',
+           6: 'an operation between two frames (a holder leaving or joining) changed the polled data of an instance it neither built nor removed: the next frame does not start from the state after the previous frame', 8: 'panic', 9: 'malformed trace', 10: 'panic'}
 def describe(stage, clause): return CLAUSES.get(clause, 'clause %d' % clause)
 def matches_known(k, case, verdict): return False
 TRUSTED = TRUSTED_BASE + ['Bevy 0.15 observer dispatch and command flushing (modelled operationally, validated by the traces)']
